@@ -161,9 +161,9 @@ partial def event (sm : Sim) (ev : String) (nested : Bool := false) : Sim :=
       -- one read holding `m1` and the first octets of `m2`, the rest of `m2` in the next read
       ((sm.op (.rx (k.toNat?.getD 0) (.data [parseMsg m1]))).settle.op (.rx (k.toNat?.getD 0) (.data [parseMsg m2]))).settle
     | ["eof", k] => (sm.op (.rx (k.toNat?.getD 0) .eof)).settle
-    | ["rerr", k, kind] => (sm.op (.rx (k.toNat?.getD 0) (if kind == "soft" then .soft else .hard))).settle
+    | ["rerr", k, kind] => (sm.op (.rx (k.toNat?.getD 0) (if kind.startsWith "soft" then .soft else .hard))).settle
     | ["wr", k, script] =>
-      let evs := (script.splitOn ",").map fun x => if x == "soft" then TxEv.soft else if x == "hard" then TxEv.hard else TxEv.all
+      let evs := (script.splitOn ",").map fun x => if x.startsWith "soft" then TxEv.soft else if x.startsWith "hard" then TxEv.hard else TxEv.all
       sm.op (.wr (k.toNat?.getD 0) evs)
     | ["block", k, b] => (sm.op (.block (k.toNat?.getD 0) (b == "1"))).settle
     | ["sethbh", k, v] => sm.op (.sethbh (k.toNat?.getD 0) (v.toNat?.getD 0))
